@@ -85,6 +85,34 @@ def _canonical_names(f):
     ren[char] = 'char'
     if size is not None:
         ren[size] = 'size'
+    # the opening character of a literal: "<q> = <char>"
+    for st in walk_no_nested(f):
+        if isinstance(st, ast.Assign) and len(st.targets) == 1 and isinstance(
+                st.targets[0], ast.Name) and isinstance(
+                    st.value, ast.Name) and st.value.id == char and \
+                st.targets[0].id not in ren:
+            ren[st.targets[0].id] = 'first_char'
+            break
+    # the open list and the stack of open lists: "<c> = []; <s>.append(<c>)"
+    pairs = []
+    for blk in _blocks(f):
+        pairs.extend(zip(blk, blk[1:]))
+    for a, b in pairs:
+        if isinstance(a, ast.Assign) and len(a.targets) == 1 and isinstance(
+                a.targets[0], ast.Name) and isinstance(
+                    a.value, ast.List) and not a.value.elts and isinstance(
+                        b, ast.Expr) and isinstance(b.value, ast.Call) and \
+                isinstance(b.value.func, ast.Attribute) and \
+                b.value.func.attr == 'append' and isinstance(
+                    b.value.func.value, ast.Name) and len(
+                        b.value.args) == 1 and isinstance(
+                            b.value.args[0], ast.Name) and \
+                b.value.args[0].id == a.targets[0].id:
+            if a.targets[0].id not in ren and \
+                    b.value.func.value.id not in ren:
+                ren[a.targets[0].id] = 'cur_expr'
+                ren[b.value.func.value.id] = 'exprs'
+            break
     # a rename must not collide with another variable
     used = {n.id for n in ast.walk(f) if isinstance(n, ast.Name)}
     for a, c in ren.items():
